@@ -473,8 +473,44 @@ def rule_d(prog, rep):
         n += 1
         want = [k for k, v in API_TABLE.items() if v == name or (name == 'export' and k == 'Export') or (name == 'entries' and k == 'Len')]
         got = {short(c) for c in ctors}
-        if len(ctors) == 1 and (not want or got & set(want)):
-            rep.ok('C02.d', f'WbApi::{name}', fn_.loc, f'constructs WbFunction::{short(ctors[0])} once')
+        # operands: the method's parameters, in order, are the leading fields of the variant (then the answer channel / span)
+        order_ok = True
+        detail = ''
+        if len(ctors) == 1:
+            cnode = [nd for nd, a in crate.walk_fn(fn_) if ctor_name(nd) and 'WbFunction::' in (ctor_name(nd) or '')][0]
+            fb = Bindings(crate, fn_)
+            pnames = [x.get('name') for x in fn_.params if isinstance(x, dict) and x.get('k') == 'bind' and x.get('name') != 'self']
+            ref = fb.rename
+            pnames = [ref.get(x, x) for x in pnames]
+            # a tracing::Span parameter is diagnostics, not an operand
+            m_sig = re.match(r'fn\((.*)\) -> ', fn_.sig or '')
+            ptys = []
+            if m_sig:
+                depth, cur = 0, ''
+                for ch in m_sig.group(1):
+                    if ch in '([<{':
+                        depth += 1
+                    elif ch in ')]>}':
+                        depth -= 1
+                    if ch == ',' and depth == 0:
+                        ptys.append(cur.strip())
+                        cur = ''
+                    else:
+                        cur += ch
+                ptys.append(cur.strip())
+                ptys = ptys[1:]   # self
+            if len(ptys) == len(pnames):
+                pnames = [pn for pn, ty in zip(pnames, ptys) if ty != 'tracing::Span']
+            for i, pn in enumerate(pnames):
+                if i >= len(cnode['args']) or fb.origins(cnode['args'][i]) != {f'param({pn})'}:
+                    order_ok = False
+                    detail = f'field {i} <- {sorted(fb.origins(cnode["args"][i])) if i < len(cnode["args"]) else "missing"}, expected parameter `{pn}`'
+                    break
+        if len(ctors) == 1 and (not want or got & set(want)) and not order_ok:
+            rep.violation('C02.d', f'WbApi::{name}:operands', fn_.loc, f'WbFunction::{short(ctors[0])} is not built from the parameters in order: {detail}',
+                          key=f'C02.d/WbApi/{name}/operands', expected='variant fields = method parameters in order, then the answer channel')
+        elif len(ctors) == 1 and (not want or got & set(want)):
+            rep.ok('C02.d', f'WbApi::{name}', fn_.loc, f'constructs WbFunction::{short(ctors[0])} once, from its parameters in order')
         else:
             rep.violation('C02.d', f'WbApi::{name}', fn_.loc, f'constructs {sorted(got)} ({len(ctors)} sites)',
                           key=f'C02.d/WbApi/{name}', expected=f'one WbFunction::{want}')
